@@ -71,6 +71,13 @@ fn c11(a: &ShardArgs) -> serde_json::Value {
         a.beat(&format!("C11 shape {i}: {s:?}"));
         n::run_shape(s, i, cap, &mut st);
     }
+    if a.si == 0 {
+        if let Some(msg) = n::late_features(40) {
+            st.violations.push(json!({
+                "engine": "hist", "property": "C11", "key": "late-feature-lost", "late_features": 40, "message": msg,
+            }));
+        }
+    }
     for v in &mut st.violations {
         v["tier"] = json!(a.tier);
     }
@@ -114,6 +121,13 @@ pub fn replay(j: &serde_json::Value) -> i32 {
     let thorough = j["tier"].as_str() == Some("thorough");
     println!("replaying {prop}: {}", j["message"].as_str().unwrap_or(""));
     match prop {
+        "C11" if j["late_features"].as_u64().is_some() => {
+            let r = crate::h_norm::late_features(j["late_features"].as_u64().unwrap() as usize);
+            if let Some(m) = &r {
+                println!("violation C11 [late-feature-lost]: {m}");
+            }
+            i32::from(r.is_some())
+        }
         "C11" => {
             let order: Vec<usize> =
                 j["order"].as_array().unwrap().iter().map(|x| x.as_u64().unwrap() as usize).collect();
